@@ -104,6 +104,7 @@ def c01(tier, seed):
                        dict(paths=os.path.join(GEN, "writer_paths.ndjson"), ops="c01", full=0 if q else 1),
                        pick=pick_cfgs(NW, 10, seed) if q else None)
     units += shards("hist", "hist", 6 if q else 32, seed, dict(histories=5 if q else 20, len=40))
+    units += shards("wfull", "wfull", 2 if q else 8, seed, dict(rounds=6 if q else 30))
     return dict(
         needs_gen=True,
         mc=writer_mcs(tier),
